@@ -124,6 +124,46 @@ def corpus_programs():
     return out
 
 
+def guarded_selection_pairs(rng, n):
+    """Selection after selection where the later predicate is only defined on the rows the earlier one keeps (a division
+    guarded by a non-zero test, ...): the merged tree must evaluate to the rows of the two selections applied in
+    sequence — which never evaluates the later predicate on a rejected row — and must not raise.  Judged in Python:
+    the partial operators are outside the model's (total) expression language."""
+    import lsst.daf.relation as dr
+    from lsst.daf.relation import iteration
+    E = dr.ColumnExpression
+    bad, done = [], 0
+    a, b = K(1), K(2)
+    for _ in range(n):
+        eng = iteration.Engine(name="guard")
+        rows = [{a: rng.choice((0, 1, 4, 9)), b: rng.choice((0, 0, 1, 2, 3))} for _ in range(rng.choice([3, 5, 7]))]
+        leaf = eng.make_leaf({a, b}, payload=iteration.RowSequence([dict(r) for r in rows]), name="G")
+        div = rng.choice(["__floordiv__", "__truediv__", "__mod__"])
+        guard = E.reference(b).ne(E.literal(0))
+        later = E.reference(a).method(div, E.reference(b)).gt(E.literal(1))
+        extra = E.reference(a).ge(E.literal(1))
+        steps = rng.choice([[guard, later], [guard, extra, later], [extra, guard, later]])
+        fns = {id(guard): lambda r: r[b] != 0, id(extra): lambda r: r[a] >= 1,
+               id(later): {"__floordiv__": lambda r: r[a] // r[b] > 1, "__truediv__": lambda r: r[a] / r[b] > 1,
+                           "__mod__": lambda r: r[a] % r[b] > 1}[div]}
+        want = rows
+        for st in steps:
+            want = [r for r in want if fns[id(st)](r)]
+        rel = leaf
+        for st in steps:
+            rel = rel.with_rows_satisfying(st)
+        merged = str(rel).count("σ") < len(steps)
+        try:
+            got = [dict(r) for r in eng.execute(rel)]
+            problem = None if got == want else f"rows {got} instead of {want}"
+        except Exception as e:  # noqa: BLE001
+            problem = f"executing the merged tree raised {type(e).__name__}: {e}"
+        done += 1
+        if problem:
+            bad.append({"tree": str(rel), "merged": merged, "rows": jsonable(rows), "problem": problem})
+    return done, bad
+
+
 def run(ctx):
     rng = random.Random(ctx.seed)
     s1 = core.s1(ctx, ["Slice"], "Properties.C05", THEOREMS,
@@ -137,6 +177,9 @@ def run(ctx):
         found |= ctx.failing_case({"kind": "merge-raised", "case": c["json"]}, None)
     summ = core.judge(ctx, cases, FULL_HDR, "check_iter", SPEC_HDR, "check_spec", model_v="Model/CheckIter.v")
     found |= summ["spec_failures"] > 0
+    ng, gbad = guarded_selection_pairs(rng, 60 if ctx.tier == "quick" else 1000)
+    for g in gbad[:3]:
+        found |= ctx.failing_case({"kind": "guarded-selection-pair", "case": g}, None)
     core.conclude_s1(ctx, s1, found or bool(ctx.violations))
     distinct = {c["key"] for c in cases if c["nontrivial"]}
     ctx.coverage.update({
@@ -145,7 +188,7 @@ def run(ctx):
                 "non-trivial = the library merged or elided at least one operation (built tree has fewer operation "
                 "nodes than calls); distinct = distinct program text",
         "traces_validated_against_impl": summ["evaluated"], "judgement": summ,
-        "raised": len(raised),
+        "raised": len(raised), "guarded_selection_pairs": {"run": ng, "failing": len(gbad)},
         "samples": [c["json"]["program"] for c in cases[:2] + cases[-2:]],
         "exhaustive_parts": "slice-after-slice pairs over all bounds in 0..%d ∪ {None}" % (4 if ctx.tier == "quick" else 7),
     })
